@@ -22,7 +22,8 @@ func init() {
 			"(R3) no code reachable from Run/RunFiles stores into memory owned by the compiled program (types of bytecode/ast, *Vore); " +
 			"(R4) every command generator installs a fresh variable scope before generating search instructions; " +
 			"(R5) package-level state written during Compile is re-initialised before use. " +
-			"Does NOT decide that an inlined copy and a call behave alike in the VM, nor uniqueness of the random loop ids.",
+			"Does NOT decide that an inlined copy and a call behave alike in the VM, nor uniqueness of the random loop ids." +
+			" Round 4: (R10) no address of a per-loop variable is kept across iterations (go 1.19 loop-variable semantics).",
 		Assumptions: commonAssumptions,
 		Rules: []RuleFn{
 			{Name: "C13.R1", Run: func(c *Ctx) { ruleAdjustPure(c, "C13.R1") }},
@@ -30,6 +31,9 @@ func init() {
 			{Name: "C13.R7", Run: func(c *Ctx) { ruleRelocationScope(c, "C13.R7") }},
 			{Name: "C13.R8", Run: func(c *Ctx) { ruleSnapshotIsolation(c, "C13.R8") }},
 			{Name: "C13.R9", Run: func(c *Ctx) { ruleOnePassGeneration(c, "C13.R9") }},
+			{Name: "C13.R10", Run: func(c *Ctx) {
+				ruleLoopVarAddressNotKept(c, "C13.R10", []string{"ast", "bytecode", "engine", "libvore", "files"})
+			}},
 			{Name: "C13.R3", Run: func(c *Ctx) { ruleProgramReadOnly(c, "C13.R3") }},
 			{Name: "C13.R4", Run: func(c *Ctx) { ruleCommandScope(c, "C13.R4") }},
 			{Name: "C13.R6", Run: func(c *Ctx) { ruleAttemptFresh(c, "C13.R6") }},
@@ -39,7 +43,8 @@ func init() {
 	register(&Property{
 		ID: "C01",
 		Explanation: "The input/output equivalence with a reference matcher is NOT decided. Decided are four structural mechanisms named by the property's anchors: (R1) dispatch completeness - every concrete node/instruction type converted to a pipeline interface has a case of the same pointer-ness in the consumer's type switch, and the character-class enum switches are exhaustive; (R2) relocation completeness - every instruction field that receives an offset-derived program counter in the generator is shifted by adjust; (R3) scan discipline - the next start position of findMatches is the end of the successful non-empty attempt or exactly one byte further, line/column updated from the byte stepped over, loop exit at the end of input; attempts start from a fresh VM state; (R4) adjust is applied only to the stored body of a definition; (R5) greedy/lazy loop protocol as a typestate: where the checkpoint sits relative to the continuing and the leaving branch; (R6) every checkpoint popped from the backtrack stack is resumed on all paths, and checkpoints are isolated snapshots (R6b = C02.R1). " +
-			"Not decided: per-instruction semantics, priority order of alternatives, what each jump target means to the VM.",
+			"Not decided: per-instruction semantics, priority order of alternatives, what each jump target means to the VM." +
+			" Round 4: (R8) with every read at the current offset returning \"\" and the offset equal to reader.Size(), no primitive reaches CONSUME (helpers that consume for their callers hand the obligation on; CONSUME(reader.Size()) and progress-tested CONSUMEs exempt); (R9) the zero-width cut is control-dependent on `iteration >= MinLoops`.",
 		Assumptions: commonAssumptions,
 		Rules: []RuleFn{
 			{Name: "C01.R1", Run: func(c *Ctx) {
@@ -59,13 +64,16 @@ func init() {
 			{Name: "C01.R5", Run: func(c *Ctx) { ruleLoopProtocol(c, "C01.R5") }},
 			{Name: "C01.R6", Run: func(c *Ctx) { ruleBacktrackResumesTop(c, "C01.R6"); ruleSnapshotIsolation(c, "C01.R6b") }},
 			{Name: "C01.R7", Run: func(c *Ctx) { ruleAlternativeOrder(c, "C01.R7") }},
+			{Name: "C01.R8", Run: func(c *Ctx) { ruleNothingConsumedAtEnd(c, "C01.R8") }},
+			{Name: "C01.R9", Run: func(c *Ctx) { ruleZeroWidthCutRespectsMinimum(c, "C01.R9") }},
 			{Name: "C01.R3", Run: func(c *Ctx) { ruleScanDiscipline(c, "C01.R3"); ruleAttemptFresh(c, "C01.R3b") }},
 		},
 	})
 	register(&Property{
 		ID: "C02",
 		Explanation: "Decides the structural conditions that make reported variables the bindings of the successful path: (R1) snapshot isolation - every reference-typed component of the VM state that is mutated in place anywhere in package engine (computed: methods that write through their receiver, and the fields they are invoked on) is freshly allocated, deeply, in the value returned by Copy; CHECKPOINT pushes such a copy; (R2) STARTVAR records len(currentMatch), ENDVAR binds currentMatch[startOffset:] on every returning path, MATCHVAR matches the bound text unchanged; (R3) every instruction handler neither stores through nor calls a mutating method on its incoming state and returns its Copy; (R4) every attempt starts from a freshly created state. " +
-			"Scoped exclusions: the saved snapshots reachable only through `backtrack` (LIFO argument, stated) and the shared reader. Does NOT decide which binding is the most recent one when a name is bound repeatedly, nor named-loop nesting.",
+			"Scoped exclusions: the saved snapshots reachable only through `backtrack` (LIFO argument, stated) and the shared reader. Does NOT decide which binding is the most recent one when a name is bound repeatedly, nor named-loop nesting." +
+			" Round 4: (R7) the restore used by BACKTRACK assigns every field of the state that matching writes, from the same field of the checkpoint; (R8) a loop record's bindings are indexed with that record's own iteration counter.",
 		Assumptions: commonAssumptions,
 		Rules: []RuleFn{
 			{Name: "C02.R1", Run: func(c *Ctx) { ruleSnapshotIsolation(c, "C02.R1") }},
@@ -73,12 +81,15 @@ func init() {
 			{Name: "C02.R3", Run: func(c *Ctx) { ruleHandlersOwnCopy(c, "C02.R3") }},
 			{Name: "C02.R4", Run: func(c *Ctx) { ruleAttemptFresh(c, "C02.R4") }},
 			{Name: "C02.R5", Run: func(c *Ctx) { ruleValueCopyDeep(c, "C02.R5"); ruleBoundTextIsConsumedText(c, "C02.R6") }},
+			{Name: "C02.R7", Run: func(c *Ctx) { ruleRestoreComplete(c, "C02.R7") }},
+			{Name: "C02.R8", Run: func(c *Ctx) { ruleIterationKeyFromSameRecord(c, "C02.R8") }},
 		},
 	})
 	register(&Property{
 		ID: "C03",
 		Explanation: "Decides the inductive skeleton behind `every match is a faithful, ordered, located slice`: (R1) single writer - the text/offset/line/column fields of the VM state are stored only by CONSUME, Set and the constructors; (R2) coherent step - CONSUME appends exactly the string it read and advances the offset by that string's length, updating line/column in a range over the same string; (R3) the match record is built from the start/current counters, the value from currentMatch, the number from the parameter, and CreateState starts current* and start* from the same argument with an empty text; (R4) a match is pushed only when non-empty, numbered matchNumber+1, and the next attempt starts at its end (scan discipline). " +
-			"Does NOT decide that Reader.Read returns the bytes at the offset (C07), column arithmetic for multi-byte input, nor the arithmetic itself.",
+			"Does NOT decide that Reader.Read returns the bytes at the offset (C07), column arithmetic for multi-byte input, nor the arithmetic itself." +
+			" Round 4: (R7) the number handed to MakeMatch is the scan's match counter + 1, the counter being identified from the loop bound.",
 		Assumptions: commonAssumptions,
 		Rules: []RuleFn{
 			{Name: "C03.R1", Run: func(c *Ctx) { ruleSingleWriter(c, "C03.R1") }},
@@ -87,12 +98,14 @@ func init() {
 			{Name: "C03.R4", Run: func(c *Ctx) { ruleScanDiscipline(c, "C03.R4"); ruleWindow(c, "C03.R4b") }},
 			{Name: "C03.R5", Run: func(c *Ctx) { ruleBindingProvenance(c, "C03.R5") }},
 			{Name: "C03.R6", Run: func(c *Ctx) { ruleReaderOffsetsAreFileOffsets(c, "C03.R6") }},
+			{Name: "C03.R7", Run: func(c *Ctx) { ruleMatchNumberProvenance(c, "C03.R7") }},
 		},
 	})
 	register(&Property{
 		ID: "C05",
 		Explanation: "Decides the structural conditions of `a replacement is the concatenation of its with-items for that match`: (R1) dispatch completeness for with-items (AstAtom -> generator, ReplaceInstruction -> executeReplace); (R2) every store to the replacement text appends to the previous text, and match records are written only by MakeMatch (plus Replacement by the two write primitives); (R3) every match gets a replacer state of its own - the state the replacer program starts from, found by role, is created per match (or per call of the helper that handles one match) from a deep copy of that match's variables, and its match is what is reported; (R3b) no table that is written while one match is replaced is installed into the state of the next; (R7) every run of a transform or predicate gets an environment map created for that run; (R6) the kind of a with-item depends only on the transform table, and WRITEVAR appends exactly when the name is bound to a string. " +
-			"Does NOT decide what a transform computes (C11) nor the order of items beyond program order.",
+			"Does NOT decide what a transform computes (C11) nor the order of items beyond program order." +
+			" Round 4: (R10) the built-in matchNumber derives from Match.MatchNumber.",
 		Assumptions: commonAssumptions,
 		Rules: []RuleFn{
 			{Name: "C05.R1", Run: func(c *Ctx) {
@@ -106,6 +119,7 @@ func init() {
 			{Name: "C05.R7", Run: func(c *Ctx) { ruleProcessEnvFresh(c, "C05.R7") }},
 			{Name: "C05.R8", Run: func(c *Ctx) { ruleBuiltinsWin(c, "C05.R8") }},
 			{Name: "C05.R9", Run: func(c *Ctx) { ruleTransformBoundAtCompileTime(c, "C05.R9") }},
+			{Name: "C05.R10", Run: func(c *Ctx) { ruleMatchNumberBuiltin(c, "C05.R10") }},
 			{Name: "C05.R5", Run: func(c *Ctx) { rulePlumbing(c, "C05.R5") }},
 			{Name: "C05.R6", Run: func(c *Ctx) { ruleItemKinds(c, "C05.R6") }},
 		},
@@ -113,7 +127,8 @@ func init() {
 	register(&Property{
 		ID: "C04",
 		Explanation: "Decides that the amount clause can only select a window of one fixed match sequence: (R1) non-interference - in the scan loop of findMatches neither the next scan position/line/column/match counter, nor the arguments of CreateState and MakeMatch, are data-dependent on skip/take/last or control-dependent on a branch whose condition depends on them (loop-exit branches exempt: they truncate), and the same holds for everything findMatches stores into the VM state or passes to a function together with it (all included); (R2) a match is pushed exactly under success && non-empty && matchNumber >= skip, numbered matchNumber+1, the loop bound is matchNumber < skip+take, Limit(last) follows every push when last != 0 and drops from the front; (R3) the five clause forms of parse_amount return the documented (all, skip, take, last) tuples; (R4) the four values keep their identity from parser to generator to findMatches for both find and replace; (R5) match records (number, offsets, text, variables) are written by MakeMatch only, so no window renumbers them. " +
-			"Does NOT decide the queue's arithmetic beyond that Limit pops from the front.",
+			"Does NOT decide the queue's arithmetic beyond that Limit pops from the front." +
+			" Round 4: (R6) the number handed to MakeMatch is the scan's match counter + 1; (R7) each match gets a replacer state of its own.",
 		Assumptions: commonAssumptions,
 		Rules: []RuleFn{
 			{Name: "C04.R1", Run: func(c *Ctx) { ruleScanNonInterference(c, "C04.R1") }},
@@ -121,12 +136,15 @@ func init() {
 			{Name: "C04.R3", Run: func(c *Ctx) { ruleAmountTable(c, "C04.R3") }},
 			{Name: "C04.R4", Run: func(c *Ctx) { rulePlumbing(c, "C04.R4") }},
 			{Name: "C04.R5", Run: func(c *Ctx) { ruleWhoWritesMatch(c, "C04.R5", false) }},
+			{Name: "C04.R6", Run: func(c *Ctx) { ruleMatchNumberProvenance(c, "C04.R6") }},
+			{Name: "C04.R7", Run: func(c *Ctx) { rulePerMatchReplacer(c, "C04.R7") }},
 		},
 	})
 	register(&Property{
 		ID: "C08",
 		Explanation: "Decides structural necessary conditions of `Compile never panics, never loops, never returns holes`: (R1) every lexer loop that reads input has no feasible cycle once read() returns the end-of-input sentinel (constant propagation of 0 through the loop, folding of the pure character predicates); (R2) every explicit panic reachable from Compile is the default of an exhaustive switch, the fall-out of a complete type switch, or in a frozen trusted table; (R3) no parse function's (nil, index, nil) return reaches a conversion or dereference without a nil test; (R4) every index into the regex pattern string and into the filtered expression-token slice is dominated by a comparison with len, with the entry-parameter obligation discharged at every call site; (R5) a typestate with function summaries over the token parser: an index may equal len(tokens) only when it leaves a scan loop that compares its counter with len(tokens) and has no exit on the EOF kind; such an index must pass a `< len(tokens)` test before it indexes the list or reaches a callee that does; (R6) TokenType.PP is exhaustive and error constructors never get a nil token; (R7) the generator's and checker's type switches turn an unmatched or nil node into an error; (R8) the API functions returning (*Vore, error) return a program built on that path, a non-nil error, or both results of a function held to the same rule - never (nil, nil); (R9) every HexToAscii call is dominated by two IsHex tests; (R10) every loop of the generator and checker is counted or a range iteration. " +
-			"Does NOT decide stack depth on deeply nested input nor memory/time of large unrolled loops (`exactly 1000000000 'a'`).",
+			"Does NOT decide stack depth on deeply nested input nor memory/time of large unrolled loops (`exactly 1000000000 'a'`)." +
+			" Round 4: (R11) every mutex locked in the compile path is released on every path out of the function; (R12) variable indexes into fixed-size tables are bounded by the table length.",
 		Assumptions: append([]string{"tokens always ends in an EOF token and consumeIgnoreableTokens never steps past it (axioms A1, A2)", "bufio.Reader's end of input is sticky (A3)"}, commonAssumptions...),
 		Rules: []RuleFn{
 			{Name: "C08.R1", Run: func(c *Ctx) { ruleEOFWorld(c, "C08.R1") }},
@@ -148,6 +166,8 @@ func init() {
 			{Name: "C08.R8", Run: func(c *Ctx) { ruleCompileNeverNilNil(c, "C08.R8") }},
 			{Name: "C08.R9", Run: func(c *Ctx) { ruleHexGuard(c, "C08.R9") }},
 			{Name: "C08.R10", Run: func(c *Ctx) { ruleBoundedLoops(c, "C08.R10", []string{"bytecode"}) }},
+			{Name: "C08.R11", Run: func(c *Ctx) { ruleLocksReleased(c, "C08.R11", []string{"ast", "bytecode", "libvore"}) }},
+			{Name: "C08.R12", Run: func(c *Ctx) { ruleArrayIndexBounded(c, "C08.R12", []string{"ast", "bytecode", "libvore", "ds"}) }},
 		},
 	})
 	register(&Property{
@@ -181,7 +201,8 @@ func init() {
 	register(&Property{
 		ID: "C09",
 		Explanation: "Decides, for everything reachable from Run/RunFiles, an inventory of panic-capable constructs each discharged by a named rule: (R1) explicit panics - fall-out of complete type switches / exhaustive enum switches, the evaluator's SHOULDN'T GET HERE panics by R2, or a frozen trusted table (VM invariants, operating-system failures); (R2) every operand-type cell the checker accepts has a non-panicking evaluator leaf; (R3) the flow-insensitive checker binds variable types monotonically; (R4) integer division has a tested divisor; (R5) instruction fetch is dominated by a program-counter bound test; (R6) reads at end of input; (R7) type assertions; (R8) results of Peek/Pop/Index are tested before dereference; (R9) readers are closed by the function that opened them and do not outlive their iteration; (R10) the VM-invariant panics of the trusted table rest on checkpoints being isolated snapshots: Copy gives every stack and map of a saved state its own storage (same rule as C02.R1); (R11) every Optional.GetValue is dominated by HasValue() on the same optional; (R12) the scan discipline on which the trusted `byte at the scan offset exists` panic rests. " +
-			"Does NOT decide index safety that depends on VM invariants (branch lists non-empty, capture offsets inside the match, jump targets in range) nor process loops that never end.",
+			"Does NOT decide index safety that depends on VM invariants (branch lists non-empty, capture offsets inside the match, jump targets in range) nor process loops that never end." +
+			" Round 4: (R15) variable indexes into fixed-size tables are bounded by the table length. (R16) the token kinds the list parser admits, the classes parse_character_class makes of them and GetMaxSize agree: no admitted class has a negative size.",
 		Assumptions: commonAssumptions,
 		Rules: []RuleFn{
 			{Name: "C09.R1", Run: func(c *Ctx) {
@@ -245,22 +266,28 @@ func init() {
 			{Name: "C09.R12", Run: func(c *Ctx) { ruleScanDiscipline(c, "C09.R12") }},
 			{Name: "C09.R13", Run: func(c *Ctx) { ruleEmptyReadsNotIndexed(c, "C09.R13") }},
 			{Name: "C09.R14", Run: func(c *Ctx) { ruleReadOffsetsNonNegative(c, "C09.R14") }},
+			{Name: "C09.R15", Run: func(c *Ctx) { ruleArrayIndexBounded(c, "C09.R15", []string{"engine", "files", "ds", "algo"}) }},
+			{Name: "C09.R16", Run: func(c *Ctx) { ruleListedClassesHaveSize(c, "C09.R16") }},
 		},
 	})
 	register(&Property{
-		ID:          "C20",
-		Explanation: "Correctness of the star matcher (pathMatches, SplitKeep, Window) is a string-algorithm property and is NOT decided; its first-occurrence search after a star is invisible to a sound structural rule. Decided (`none extra ... directories are never listed`): (R1) every path that GetFileList itself adds to its result is control-dependent on `not a directory` and on pathMatches against the pattern segment, and every recursive call is made on the shrunk pattern, so recursion depth is bounded by the number of segments; (R2) no path or file name is cut with a cutset of two or more different characters that includes a file-name character (strings.TrimLeft(p, \"./\") eats the dot of dot-names); (R3) a conjunction of HasPrefix and HasSuffix on one name comes with a comparison of the lengths (the affixes may overlap otherwise).",
+		ID: "C20",
+		Explanation: "Correctness of the star matcher (pathMatches, SplitKeep, Window) is a string-algorithm property and is NOT decided; its first-occurrence search after a star is invisible to a sound structural rule. Decided (`none extra ... directories are never listed`): (R1) every path that GetFileList itself adds to its result is control-dependent on `not a directory` and on pathMatches against the pattern segment, and every recursive call is made on the shrunk pattern, so recursion depth is bounded by the number of segments; (R2) no path or file name is cut with a cutset of two or more different characters that includes a file-name character (strings.TrimLeft(p, \"./\") eats the dot of dot-names); (R3) a conjunction of HasPrefix and HasSuffix on one name comes with a comparison of the lengths (the affixes may overlap otherwise)." +
+			" Round 4: (R4) a parsed Path is immutable; (R5) no byte of a pattern is converted to a string as a code point.",
 		Assumptions: commonAssumptions,
 		Rules: []RuleFn{
 			{Name: "C20.R1", Run: func(c *Ctx) { ruleFileListGuards(c, "C20.R1") }},
 			{Name: "C20.R2", Run: func(c *Ctx) { ruleCutsetNotPrefix(c, "C20.R2", []string{"files", "engine", "main"}) }},
 			{Name: "C20.R3", Run: func(c *Ctx) { ruleAffixOverlap(c, "C20.R3", []string{"files", "algo"}) }},
+			{Name: "C20.R4", Run: func(c *Ctx) { rulePathImmutable(c, "C20.R4") }},
+			{Name: "C20.R5", Run: func(c *Ctx) { ruleNoByteToStringConversion(c, "C20.R5", []string{"files", "algo"}) }},
 		},
 	})
 	register(&Property{
 		ID: "C10",
 		Explanation: "Termination itself is NOT decided. Decided are the mechanisms that make it true: (R1) in matchStartLoop the zero-width check dominates every start of a further iteration, and on a zero-width iteration the only effect is BACKTRACK and return; the recorded start is only ever len(currentMatch); (R2) matchEndNotIn advances only when the offset changed across CONSUME; (R3) every instruction handler and every MATCH* primitive moves the state (NEXT/JUMP/RETURN/BACKTRACK/FAIL) on every returning path (must-analysis over the CFG, greatest fixpoint over the primitives); (R4) the outer scan advances (scan discipline); (R5) loop identity compares loop id and call depth; (R6) every loop inside an instruction handler that calls CONSUME has an exit that tests the offset against reader.Size() (directly or in every predicate the exit can call); R1 also requires every increment of the iteration counter to re-record the iteration start on all paths. " +
-			"Does NOT decide weakened-but-present guards, nor recursion that consumes nothing (excluded by the property).",
+			"Does NOT decide weakened-but-present guards, nor recursion that consumes nothing (excluded by the property)." +
+			" Round 4: (R9) nothing is consumed at the end of the input (same rule as C01.R8); (R10) with the body's status fixed to the one set by `return`/`break` the process-loop executor has no feasible cycle; R1 accepts a skipped zero-width check only on an edge where `iteration < MinLoops`.",
 		Assumptions: commonAssumptions,
 		Rules: []RuleFn{
 			{Name: "C10.R1", Run: func(c *Ctx) { ruleZeroWidthGuard(c, "C10.R1") }},
@@ -271,6 +298,8 @@ func init() {
 			{Name: "C10.R6", Run: func(c *Ctx) { ruleConsumingLoopsStopAtEOF(c, "C10.R6") }},
 			{Name: "C10.R7", Run: func(c *Ctx) { ruleSnapshotIsolation(c, "C10.R7") }},
 			{Name: "C10.R8", Run: func(c *Ctx) { ruleJumpsGoForward(c, "C10.R8") }},
+			{Name: "C10.R9", Run: func(c *Ctx) { ruleNothingConsumedAtEnd(c, "C10.R9") }},
+			{Name: "C10.R10", Run: func(c *Ctx) { ruleProcessLoopEnds(c, "C10.R10") }},
 		},
 	})
 	register(&Property{
@@ -308,8 +337,9 @@ func init() {
 		},
 	})
 	register(&Property{
-		ID:          "C14",
-		Explanation: "Equivalence with a regex engine is NOT decided (value-level; it is C01 plus this). Decided: the regex-specific translation tables and the numbering order - (R1) the quantifier table of parse_regexp_quantifier, extracted from the AstLoop literals and the character tests that control them (* + ? {m} {m,} {m,n}), and that the lazy marker applies to every quantifier; (R2) the atom table (^ $ . \\d \\D \\s \\S); (R3) a capturing group reads its number before its body is parsed (numbering by opening parenthesis).",
+		ID: "C14",
+		Explanation: "Equivalence with a regex engine is NOT decided (value-level; it is C01 plus this). Decided: the regex-specific translation tables and the numbering order - (R1) the quantifier table of parse_regexp_quantifier, extracted from the AstLoop literals and the character tests that control them (* + ? {m} {m,} {m,n}), and that the lazy marker applies to every quantifier; (R2) the atom table (^ $ . \\d \\D \\s \\S); (R3) a capturing group reads its number before its body is parsed (numbering by opening parenthesis)." +
+			" Round 4: (R6) the loop-stack protocol (same rule as C01.R5); (R7) no byte of a regexp literal is converted to a string as a code point; (R8) the scan discipline (same rule as C01.R3).",
 		Assumptions: commonAssumptions,
 		Rules: []RuleFn{
 			{Name: "C14.R1", Run: func(c *Ctx) { ruleRegexQuantifiers(c, "C14.R1") }},
@@ -317,6 +347,9 @@ func init() {
 			{Name: "C14.R3", Run: func(c *Ctx) { ruleRegexGroupOrder(c, "C14.R3") }},
 			{Name: "C14.R4", Run: func(c *Ctx) { ruleQuantifierWrapsAtom(c, "C14.R4") }},
 			{Name: "C14.R5", Run: func(c *Ctx) { ruleQuantifierCharsAgree(c, "C14.R5") }},
+			{Name: "C14.R6", Run: func(c *Ctx) { ruleLoopProtocol(c, "C14.R6") }},
+			{Name: "C14.R7", Run: func(c *Ctx) { ruleNoByteToStringConversion(c, "C14.R7", []string{"ast", "bytecode", "engine"}) }},
+			{Name: "C14.R8", Run: func(c *Ctx) { ruleScanDiscipline(c, "C14.R8") }},
 		},
 	})
 	register(&Property{
@@ -340,7 +373,8 @@ func init() {
 	register(&Property{
 		ID: "C16",
 		Explanation: "Decides the structural part of string-literal decoding: (R1) the lexer's push-back never exceeds what bufio.Reader can undo (capacity 1 while unread() relies on UnreadRune); (R2) the escape table of getEscapedRune, folded over every ASCII rune, is the documented one (n t r a b f v, identity otherwise); (R3) the double-quote and single-quote branches of the lexer are identical up to their state constants and quote character; (R4) IsHex accepts exactly the hex digits and HexToAscii parses base 16; (R5) read() hands out exactly the rune of one ReadRune call; (R6) an escape state lasts for one decision: every path out of the arm guarded by it continues in the string state it was entered from. " +
-			"Does NOT decide the state machine as a whole (that every byte string round-trips), only these necessary conditions.",
+			"Does NOT decide the state machine as a whole (that every byte string round-trips), only these necessary conditions." +
+			" Round 4: (R7) with the lexer state fixed to a string state only arms reached because of the state (or end-of-input arms) stay reachable; (R8) the builders of a literal's node read no package-level variable that Compile writes.",
 		Assumptions: append([]string{"bufio.Reader.UnreadRune supports a single level of push-back (documented)"}, commonAssumptions...),
 		Rules: []RuleFn{
 			{Name: "C16.R1", Run: func(c *Ctx) { ruleUnreadDepth(c, "C16.R1") }},
@@ -348,6 +382,8 @@ func init() {
 			{Name: "C16.R3", Run: func(c *Ctx) { ruleQuoteSiblings(c, "C16.R3") }},
 			{Name: "C16.R5", Run: func(c *Ctx) { ruleReadVerbatim(c, "C16.R5") }},
 			{Name: "C16.R6", Run: func(c *Ctx) { ruleEscapeStateOneChar(c, "C16.R6") }},
+			{Name: "C16.R7", Run: func(c *Ctx) { ruleStringStatesOwnTheirCharacters(c, "C16.R7") }},
+			{Name: "C16.R8", Run: func(c *Ctx) { ruleLiteralIndependentOfGlobals(c, "C16.R8") }},
 		},
 	})
 	register(&Property{
@@ -366,7 +402,8 @@ func init() {
 	register(&Property{
 		ID: "C18",
 		Explanation: "Decides structural conditions of the command-line tool in package main: (R1) every os.OpenFile used for the JSON output files has a write access mode and permission bits, and every document written to a file is preceded by O_TRUNC or a dominating Truncate of that file (also inside the helper that returns the file); (R2) on every path of main.main that can continue to the statement printing the JSON document, no other call may write to standard output (call graph closure over fmt.Print*/os.Stdout; exempt: calls control-dependent on -debug, the user-requested debug statement, paths cut by os.Exit/log.Fatal/return or by contradictory flag conditions); (R3) every failure exit has a non-zero status and cannot execute after RunFiles; (R4) the -replace-mode table (partial evaluation of replaceMode) and the NEW default; (R5) the documented flags are registered with the documented kinds (anywhere in package main); (R6) no path is cut with a multi-character cutset. Flags may be variables or fields of an options struct. " +
-			"Does NOT decide the process-level behaviour of the built binary (exit status, bytes on stdout).",
+			"Does NOT decide the process-level behaviour of the built binary (exit status, bytes on stdout)." +
+			" Round 4: (R9) the searched file list never contains a directory (same rule as C20.R1).",
 		Assumptions: append([]string{"flag.PrintDefaults, log.Fatal and the builtin println write to standard error"}, commonAssumptions...),
 		Rules: []RuleFn{
 			{Name: "C18.R1", Run: func(c *Ctx) { ruleCLIOpenForWriting(c, "C18.R1") }},
@@ -377,6 +414,7 @@ func init() {
 			{Name: "C18.R6", Run: func(c *Ctx) { ruleCutsetNotPrefix(c, "C18.R6", []string{"main", "files", "engine"}) }},
 			{Name: "C18.R7", Run: func(c *Ctx) { ruleJSONMarshalSafe(c, "C18.R7"); ruleJSONTextUntouched(c, "C18.R7b") }},
 			{Name: "C18.R8", Run: func(c *Ctx) { ruleModeTable(c, "C18.R8") }},
+			{Name: "C18.R9", Run: func(c *Ctx) { ruleFileListGuards(c, "C18.R9") }},
 		},
 	})
 	register(&Property{
@@ -384,10 +422,14 @@ func init() {
 		Explanation: "Decides data-race freedom of concurrent Compile/Run calls for this code base by ownership: (R1) no package-level variable is " +
 			"accessed without synchronisation by code reachable from Compile/CompileFile/(*Vore).Run/RunFiles; (R2/R3) run-time code never stores into the " +
 			"shared compiled program (bytecode/ast objects, *Vore); (R4) no go statements, unsafe, cgo, and every library call goes to an allow-listed goroutine-safe package. " +
-			"Under R1-R4 two calls share only read-only memory. Does NOT decide determinism of results beyond that (random loop ids are unobservable by design).",
+			"Under R1-R4 two calls share only read-only memory. Does NOT decide determinism of results beyond that (random loop ids are unobservable by design)." +
+			" Round 4: (R2) every mutex Lock is released on every path out of its function.",
 		Assumptions: append([]string{"standard-library packages on the allow-list are goroutine-safe as documented"}, commonAssumptions...),
 		Rules: []RuleFn{
 			{Name: "C19.R1", Run: func(c *Ctx) { ruleGlobals(c, "C19.R1", c.apiRoots(), "Compile/CompileFile/(*Vore).Run/RunFiles") }},
+			{Name: "C19.R2", Run: func(c *Ctx) {
+				ruleLocksReleased(c, "C19.R2", []string{"ast", "bytecode", "engine", "libvore", "files"})
+			}},
 			{Name: "C19.R2", Run: func(c *Ctx) { ruleProgramReadOnly(c, "C19.R2") }},
 			{Name: "C19.R4", Run: func(c *Ctx) { ruleLibraryCalls(c, "C19.R4") }},
 		},
